@@ -41,10 +41,13 @@ def _push_hook():
     return hook
 
 
-def _has_atom(st, header, value):
-    """truth value of has(<headers>.iter(), header, value) on this path, or None"""
+def _has_atom(st, header, value, origin=None):
+    """truth value of has(<headers>.iter(), header, value) on this path, or None; `origin`: substring that the
+    receiver term must contain (whose headers are inspected: the request's or the delivered response's)"""
     for k, v in st.facts.items():
         if v[0] == "bool" and k[0] == "app" and k[1].endswith("HeaderIterExt>::has") and contains_bytes(k, header) and contains_bytes(k, value):
+            if origin is not None and not any(o_ in repr(k) for o_ in ((origin,) if isinstance(origin, str) else origin)):
+                continue
             return v[1], k
     return None, None
 
@@ -116,7 +119,7 @@ def rule_instances(ctx):
                 bad.append("request version not decided on a constructor path")
             if is10 != ("Http10" in pushed):
                 bad.append("Http10 recorded=%s but request version is %s1.0" % ("Http10" in pushed, "" if is10 else "not "))
-            hc, _ = _has_atom(o.state, b"connection", b"close")
+            hc, _ = _has_atom(o.state, b"connection", b"close", origin="('in', 'request')")
             if hc is None:
                 bad.append("request `connection: close` not evaluated on a constructor path")
             elif hc != ("ClientConnectionClose" in pushed):
@@ -185,7 +188,7 @@ def rule_instances(ctx):
             pushed = [e[1] for e in o.state.events if e[0] == "push"]
             rs = shape(o.ret)
             got_response = rs.startswith("Ok({0:?,1:Some") or ("1:Some" in rs and rs.startswith("Ok("))
-            hc, _ = _has_atom(o.state, b"connection", b"close")
+            hc, _ = _has_atom(o.state, b"connection", b"close", origin=("try_parse", "::try_response'"))
             if not got_response:
                 if pushed:
                     bad.append("a close reason is recorded although no response was delivered (%s)" % rs[:30])
